@@ -108,8 +108,14 @@ HandleVote(s, v) ==
           ELSE s1
 
 (* commit: core.rs:118.  The ancestor walk. *)
-RECURSIVE ChainDown(_, _)
-ChainDown(b, lc) == IF b = Genesis \/ Rnd(b) <= lc THEN <<>> ELSE Append(ChainDown(Par(b), lc), b)
+RECURSIVE Ancestors(_, _)
+\* the ancestor walk of commit() as coded (after fix 0de0dce): from the block, while lc + 1 < parent.round take the parent, stop at a block of
+\* round <= lc; delivered oldest first.  (Along chains whose rounds strictly increase -- all chains a correct node can be shown when at most f
+\* authorities are faulty -- this is "every ancestor of round > lc"; an unconstrained environment can build chains with equal rounds.)
+Ancestors(p, lc) == IF lc + 1 < Rnd(p) /\ p # Genesis
+                    THEN LET a == Par(p) IN IF a = Genesis \/ Rnd(a) <= lc THEN <<>> ELSE Append(Ancestors(a, lc), a)
+                    ELSE <<>>
+ChainDown(b, lc) == IF b = Genesis \/ Rnd(b) <= lc THEN <<>> ELSE Append(Ancestors(b, lc), b)
 
 RECURSIVE WalkAsFound(_, _, _)
 \* while lc + 1 < parent.round: push_front(parent-of-parent); finally push_front(block); pop_back.
